@@ -46,6 +46,14 @@ class XlCircular(XlError):
 ERR_CIRCULAR = XlCircular('#CIRC!')
 
 
+def _escape_text(value):
+    # Text that `from_dict` would read as formula, error, or empty marker.
+    if isinstance(value, str) and not isinstance(value, (XlError, HexValue)):
+        if Cell.parser.is_formula(value) or value.upper() == '#EMPTY':
+            return '="%s"' % value.replace('"', '""')
+    return value
+
+
 def _get_name(name, names):
     if name not in names:
         name = name.upper()
@@ -467,10 +475,7 @@ class ExcelModel:
             for k, d in self.dsp.default_values.items()
             if not isinstance(k, sh.Token)
         }
-        nodes = {
-            k: isinstance(v, str) and v.startswith('=') and '="%s"' % v or v
-            for k, v in nodes.items()
-        }
+        nodes = {k: _escape_text(v) for k, v in nodes.items()}
         nodes = {
             k: '#EMPTY' if v == [[sh.EMPTY]] else v
             for k, v in nodes.items()
